@@ -354,6 +354,18 @@ func checkC15(t *Trial, ctx *Ctx) *Failure {
 					p, ok := mutPos(m)
 					if !ok {
 						p, ok = aaPos(m, an)
+						if ok {
+							// an aa: record sits somewhere on its codon; which base is not part of the
+							// statement, so a codon straddling a window edge decides nothing
+							lo, hi := p, p+2*featStrand(m, an)
+							if hi < lo {
+								lo, hi = hi, lo
+							}
+							in := func(x int) bool { return (s < 0 || x >= s) && (e < 0 || x <= e) }
+							if in(lo) != in(hi) {
+								ok = false
+							}
+						}
 					}
 					if !ok {
 						uncertain = true
@@ -367,7 +379,7 @@ func checkC15(t *Trial, ctx *Ctx) *Failure {
 				}
 			}
 			if uncertain {
-				ctx.Probe("row_with_codon_across_join_skipped", 1)
+				ctx.Probe("row_with_codon_across_join_or_window_edge_skipped", 1)
 				continue
 			}
 			exp := name + "," + strings.Join(keep, "|")
